@@ -28,7 +28,7 @@ const KEYSPACES: [&str; 2] = ["a", "b"];
 const BIG_ID: u64 = (1u64 << 63) + 1; // above i64::MAX (sign conversions); sorts BEFORE 2 in little-endian byte order
 /// The state-graph search uses the first two ids; the subset-purge block uses all four
 /// (numerically BIG_ID-as-i64 < 2 < 5 < 9 in SQLite, 2 < 5 < 9 < BIG_ID elsewhere).
-const IDS: [u64; 4] = [2, BIG_ID, 5, 9];
+const IDS: [u64; 4] = [2, BIG_ID, 0, 9];
 
 fn stamp(i: u8) -> HLCTimestamp {
     // t1 < t2 < t3, distinct in seconds, fractional, counter and node
@@ -462,11 +462,27 @@ async fn observe<B: Backend>(b: &B, model: &Model) -> Vec<(&'static str, String)
                 },
             }
         }
-        // multi_get, both orders, plus an id that never exists
-        for order in [vec![IDS[0], IDS[1], 99, IDS[2], IDS[3]], vec![IDS[3], 99, IDS[1], IDS[0], IDS[2]]] {
+        // multi_get: both orders of the whole universe plus an id that never exists, every
+        // non-empty subset of the universe (a document that was *not* asked for must not come
+        // back), and request lists of exactly 8 and of 9 ids (batched lookups)
+        let mut requests: Vec<Vec<u64>> = vec![vec![IDS[0], IDS[1], 99, IDS[2], IDS[3]], vec![IDS[3], 99, IDS[1], IDS[0], IDS[2]]];
+        for mask in 1u8..15 {
+            let mut r: Vec<u64> = IDS.iter().enumerate().filter(|(i, _)| mask & (1 << i) != 0).map(|(_, id)| *id).collect();
+            if mask % 2 == 1 {
+                r.reverse();
+            }
+            if mask % 3 == 0 {
+                r.push(99);
+            }
+            requests.push(r);
+        }
+        requests.push(vec![90, IDS[1], 91, 92, IDS[3], 93, 94, IDS[0]]);
+        requests.push(vec![90, IDS[1], 91, 92, IDS[3], 93, 94, 95, IDS[0]]);
+        for order in requests {
             let mut want: Vec<(u64, HLCTimestamp, Vec<u8>)> = IDS
                 .iter()
                 .enumerate()
+                .filter(|(_, id)| order.contains(id))
                 .filter_map(|(ii, id)| match model.slots.get(&(ki, ii as u8)) {
                     Some((ts, Some(pay))) => Some((*id, stamp(*ts), payload(*pay))),
                     _ => None,
@@ -482,7 +498,7 @@ async fn observe<B: Backend>(b: &B, model: &Model) -> Vec<(&'static str, String)
                         bad.push((
                             "multi-get-differs",
                             format!(
-                                "multi_get({ks}) returned ids {:?}, model {:?}",
+                                "multi_get({ks},{order:?}) returned ids {:?}, model {:?}",
                                 got.iter().map(|d| d.0).collect::<Vec<_>>(),
                                 want.iter().map(|d| d.0).collect::<Vec<_>>()
                             ),
